@@ -9,12 +9,13 @@
 #include <sys/time.h>
 using namespace vh;
 
-// Watchdog: one op line takes microseconds; if the library does not come back within a second
-// (e.g. a length loop that never terminates) SIGALRM kills the process and the runner records
-// `crash:signal:14` for that line instead of hanging.
+// Watchdog: one op line takes microseconds of CPU; if the library burns two CPU-seconds on a
+// line (e.g. a length loop that never terminates) SIGPROF kills the process and the runner
+// records `crash:signal:27` for that line instead of hanging.  CPU time, not wall-clock time,
+// so a loaded machine cannot trip it.
 static void arm_watchdog() {
-    struct itimerval t = {{0, 0}, {1, 0}};
-    setitimer(ITIMER_REAL, &t, NULL);
+    struct itimerval t = {{0, 0}, {2, 0}};
+    setitimer(ITIMER_PROF, &t, NULL);
 }
 
 struct Args {
